@@ -21,11 +21,7 @@ func flagsLabel(p part) string {
 }
 
 func setProv(p part, kv kvReq, prev string) string {
-	s := fmt.Sprintf("Set(%s):%s->%s", flagsLabel(p), prev, kv.Val.K.class())
-	if kv.Meta.any() {
-		s += "+meta"
-	}
-	return s
+	return fmt.Sprintf("Set:%s->%s", prev, kv.Val.K.sigClass())
 }
 
 // apply checks one answered request against the model and advances the model.
@@ -97,7 +93,7 @@ func (m *model) situation(o *op) string {
 		for _, p := range o.Parts {
 			sm := m.sw[p.Sw]
 			for _, kv := range p.KVs {
-				parts = append(parts, fmt.Sprintf("%s:%s->%s:%s", flagsLabel(p), sm.keys[kv.Key].label(), kv.Val.K.class(), sm.mode()))
+				parts = append(parts, fmt.Sprintf("%s:%s->%s:%s", flagsLabel(p), sm.keys[kv.Key].label(), kv.Val.K.sigClass(), sm.mode()))
 			}
 		}
 	case "Get", "Delete", "Count":
@@ -168,16 +164,6 @@ func (m *model) situation(o *op) string {
 			}
 		default:
 			parts = append(parts, fmt.Sprintf("swamp=%s:%s", sm.exist(), sm.mode()))
-		}
-		if strings.HasPrefix(o.RPC, "Increment") {
-			x := ""
-			if o.Cond != nil {
-				x += "+cond"
-			}
-			if o.IfNot != nil || o.IfExist != nil {
-				x += "+meta"
-			}
-			parts[0] += x
 		}
 	}
 	return joinSit(parts)
@@ -261,9 +247,15 @@ func sliceMinus(a, del []uint32) []uint32 {
 	return out
 }
 
-func setJudge(s kstate, p part, kv kvReq, status string, sm *swampModel) ([]kstate, *viol) {
+func setJudge(s kstate, p part, kv kvReq, status string, sm *swampModel, loose bool) ([]kstate, *viol) {
 	bad := func(want string, prev string, rel string) *viol {
-		return &viol{fmt.Sprintf("Set:status:%s:%s->%s:%s:got=%s:want=%s", flagsLabel(p), prev, kv.Val.K.class(), rel, status, want),
+		kr := "other-kind"
+		if prev == "absent" {
+			kr = "absent"
+		} else if !s.Absent && s.R.Val.K == kv.Val.K {
+			kr = "same-kind"
+		}
+		return &viol{fmt.Sprintf("Set:status:%s:%s:%s:got=%s:want=%s", flagsLabel(p), kr, rel, status, want),
 			fmt.Sprintf("Set %s key %s/%s val %s meta %+v on a key that is %s answered %s, documented %s", flagsLabel(p), sm.cfg.Name, kv.Key, kv.Val, kv.Meta, prev, status, want)}
 	}
 	if s.Absent {
@@ -333,7 +325,7 @@ func setJudge(s kstate, p part, kv kvReq, status string, sm *swampModel) ([]ksta
 		case changed || metaDiffers:
 			want = []string{"UPDATED"}
 			rel = "changed"
-		case metaOpen:
+		case metaOpen, loose:
 			want = []string{"UPDATED", "NOTHING_CHANGED"}
 		default:
 			want = []string{"NOTHING_CHANGED"}
@@ -449,16 +441,16 @@ func (m *model) applySet(o *op, ob *obs) *viol {
 						km.setWild(setProv(p, kv, prev)) // replace/merge over an unknown old value
 					} else {
 						km.wild, km.cands = false, []kstate{{R: r}}
-						km.prov, km.reloaded = setProv(p, kv, prev), false
+						km.prov, km.reloaded, km.loose = setProv(p, kv, prev), false, false
 					}
 				}
 				continue
 			}
-			if v := km.judge(func(s kstate) ([]kstate, *viol) { return setJudge(s, p, kv, st, sm) }); v != nil {
+			if v := km.judge(func(s kstate) ([]kstate, *viol) { return setJudge(s, p, kv, st, sm, km.loose) }); v != nil {
 				return v
 			}
 			if st == "NEW" || st == "UPDATED" {
-				km.prov, km.reloaded = setProv(p, kv, prev), false
+				km.prov, km.reloaded, km.loose = setProv(p, kv, prev), false, false
 			}
 		}
 		if p.Create {
@@ -477,6 +469,9 @@ func (m *model) applyGet(o *op, ob *obs) *viol {
 			if m.sw[p.Sw].exist() != triYes && missingSwampErr(ob.Err) {
 				return nil
 			}
+		}
+		if missingSwampErr(ob.Err) {
+			return swampExistViol("Get", m.sw[o.Parts[0].Sw], "yes", "error-FailedPrecondition")
 		}
 		return &viol{"Get:error:" + ob.Err.Code + ":" + m.situation(o), "Get returned an error: " + ob.Err.Msg}
 	}
@@ -662,7 +657,7 @@ func (m *model) applyDelete(o *op, ob *obs) *viol {
 					return []kstate{s}, nil
 				}
 				if st != "DELETED" {
-					return nil, &viol{fmt.Sprintf("Delete:status:%s:got=%s:want=DELETED%s", s.R.Val.K.class(), st, provSuffix(km)), fmt.Sprintf("Delete of existing key %s/%s (%s) answered %s", sm.cfg.Name, k, s.R.Val, st)}
+					return nil, &viol{fmt.Sprintf("Delete:status:present:got=%s:want=DELETED%s", st, provSuffix(km)), fmt.Sprintf("Delete of existing key %s/%s (%s) answered %s", sm.cfg.Name, k, s.R.Val, st)}
 				}
 				return []kstate{{Absent: true}}, nil
 			})
@@ -840,7 +835,7 @@ func (m *model) existKey(rpc string, sm *swampModel, k string, got bool) *viol {
 		}
 		mod := "absent"
 		if !s.Absent {
-			mod = s.R.Val.K.class() + zeroMark(s.R.Val)
+			mod = s.R.Val.K.sigClass()
 		}
 		return nil, &viol{fmt.Sprintf("%s:existence:model=%s:obs=%v%s", rpc, mod, got, provSuffix(km)), fmt.Sprintf("%s(%s/%s)=%v, model: %s", rpc, sm.cfg.Name, k, got, mod)}
 	})
@@ -926,6 +921,9 @@ func (m *model) evict() {
 			continue
 		}
 		for _, k := range keyNames {
+			if sm.keys[k].loose {
+				sm.keys[k].setWild(sm.keys[k].prov)
+			}
 			sm.keys[k].reloaded = true
 		}
 	}
